@@ -370,7 +370,7 @@ def c10_plan(driver, w, snap, ev, res):
     out = {'devs': [], 'ctx': {}, 'stats': {}}
     if not E.is_job(ev) or ev[0] in ('create_branch', 'delete_branch'):
         return out
-    out['devs'] = [['repeat', 3], ['pollute']]
+    out['devs'] = [['repeat', 3], ['pollute'], ['stale']]
     out['ctx'] = {'pre_pending': res['pre']['pending'],
                   'cev': concretize(ev, res['pre']),
                   'post_key': res['key'],
@@ -417,9 +417,37 @@ def c10_pollute(driver, w, snap, ev, ctx):
     return out
 
 
+def c10_stale(driver, w, snap, ev, ctx):
+    """The same evaluation, on the same state, after the long-lived instance
+    processed - in the *initial* repository state - a job that ends before
+    cloning (a build report on an unknown commit): nothing that job learnt
+    about the repository may survive into the next one."""
+    from .explorer import build_initial
+    out = {'violations': [], 'stats': {'c10_stale_runs': 1}}
+    build_initial(w, driver)
+    o0 = E.apply(w, ['eval_sha', '0' * 40])
+    out['stats']['c10_stale_' + str(o0.get('status'))] = 1
+    w.restore(snap)
+    w.set_pending(ctx['pre_pending'])
+    o = E.apply(w, ctx['cev'])
+    key = w.key()
+    if key != ctx['post_key'] or o.get('status') != ctx['status']:
+        out['violations'].append({
+            'property': 'C10', 'fingerprint': 'depends-on-earlier-jobs',
+            'msg': 'the outcome of %s depends on what the instance processed '
+                   'before: after a build report on an unknown commit '
+                   'processed in the initial repository state it ends %s '
+                   '(state %s), otherwise %s (state %s)' % (
+                       ctx['cev'], o.get('status'), key, ctx['status'],
+                       ctx['post_key'])})
+    return out
+
+
 def c10_run(driver, w, snap, ev, dev, ctx):
     if dev[0] == 'pollute':
         return c10_pollute(driver, w, snap, ev, ctx)
+    if dev[0] == 'stale':
+        return c10_stale(driver, w, snap, ev, ctx)
     out = {'violations': [], 'stats': {'c10_repeats': 1}}
     w.restore(snap)
     w.set_pending(ctx['pre_pending'])
